@@ -39,6 +39,9 @@ CHECKS = {
  "C14": dict(cat="model_checking", tech="TLA+ abstract-log spec with per-backend observation functions; TLC-enumerated operation sequences executed on every real backend, answers decoded and validated against the spec (trace validation)",
    text="TLC enumerates all operation sequences (records with warm-up / divergence / update flags, flush, inspect, finalize after any prefix) of the abstract log for num_tune, num_draws <= 2 and checks the log-level properties; each sequence is executed on HashMap, Arrow, ndarray, CSV, Zarr sync and Zarr async through the crate's storage traits with 1..3 chains, store_warmup on/off, optional/event field options and all value types and shapes (scalar, vector, 2x3 / 3x2 matrix; NaN, +-inf, empty strings); the answer, read back with a fresh reader (zarrs re-open, CSV re-parse, Arrow arrays, ndarray views) and decoded to record indices, must equal the observation Storage.tla computes for that backend's layout.",
    note="values are injective in (variable, chain, record); decoding by exact canonical cell comparison harness-side; 'draw'/'chain' stats omitted by design in HashMap/ndarray/Zarr are not demanded; CSV inspect has no result by design; Zarr inspect counts as a reader observation", ref="5/C14"),
+ "C15": dict(cat="model_checking", tech="TLA+ chunk-buffer spec with crash points (TLC) + replay of its behaviours on the real Zarr backends with a fresh reader after every operation",
+   text="ZarrBuffer.tla models SampleBuffer (push, full-chunk write, warm-up reset, flush = partial-chunk write, async in-flight writes landing in any order, finalize) and TLC checks for chunk sizes 1..4, up to 4+4 draws, up to 2 flushes that the reader's view contains everything recorded before the last flush, unchanged by later pushes / flushes / finalisation, and no garbage; a variant whose flush does not join pending writes must violate it (teeth). Every behaviour is executed on the real sync (memory + filesystem store) and async (normal and slow write queue) backends; a fresh zarrs reader is opened after every flush and every later record and its view must satisfy ReaderOK of Storage.tla.",
+   note="crash = reader opening the store between two operations; async timing sampled with a slowed single-worker runtime", ref="5/C15"),
 }
 NOT_APPLICABLE = {
  "C19": "encode/decode fidelity of a plain data structure plus equality of two deterministic runs: no state machine, schedule, history or fault to specify in TLA+ (DESIGN.md 5/C19)",
